@@ -11,8 +11,8 @@ import walk_common as wc  # noqa: E402
 LEVEL = "proof"
 PROPS = "Walk/Props_C09.v"
 COQ_FILES = wc.COQ_FILES + ["Walk/Invariant.v", "Walk/Faults.v", "Walk/FaultProofs.v", "Walk/ConfineProofs.v",
-                            "Walk/ContainProofs.v", "Walk/LimitProofs.v", "Walk/SubdirProofs.v", "Walk/PathsProofs.v", "Walk/MultiFaultProofs.v", "Walk/Props_C09.v"]
-THEOREMS = ["nonfatal_never_fails", "faults_contained", "faults_surface", "required_file_outcome",
+                            "Walk/ContainProofs.v", "Walk/LimitProofs.v", "Walk/SubdirProofs.v", "Walk/PathsProofs.v", "Walk/MultiFaultProofs.v", "Walk/SizeStatProofs.v", "Walk/Props_C09.v"]
+THEOREMS = ["lazy_stat_fault_fatal_iff_requested", "nonfatal_never_fails", "faults_contained", "faults_surface", "required_file_outcome",
             "fatal_iff_traversal_fault", "scan_status_derivation", "faults_contained_paths", "multiroot_faults_contained",
             "multiroot_faults_surface"]
 
@@ -30,9 +30,12 @@ META = {
                   "gitignore-stack panic and the unreadable-.gitignore abort were repaired in /repo (commits fcea44df, 3fdcaf3f, d544b0e3); "
                   "their witnesses are in the regression corpus. faults_contained carries gi_readable (an unreadable .gitignore contributes "
                   "no patterns, so the scan is not compared with the fault-free one there); tree_quiet only excludes Stat faults on files "
-                  "when a FileRequired consults api.Stat().",
-    "level_note": "Trusted: Coq kernel + vm_compute; harness file system (fault injection per operation site, error kinds permission / "
-                  "other mapped to one model fault); a failing read inside an extractor is the extractor's own error return (the "
+                  "when a FileRequired consults api.Stat(). Size-limit clause: theorem lazy_stat_fault_fatal_iff_requested (extractor loop of "
+                  "handleFile: a failing lazy Stat on a required file hands the file to no extractor and aborts iff fatal errors were requested) "
+                  "and the oracle clause c09_size_domain, claimed on every case whose only faults are failing Stat calls on files with a size limit set.",
+    "level_note": "Trusted: Coq kernel + vm_compute; harness file system (fault injection per operation site, error values fs.ErrPermission / "
+                  "fs.ErrNotExist (vanished file) / I-O error mapped to one model fault - the implementation must not tell them apart; a missing "
+                  ".gitignore is documented as no patterns and is not injected); a failing read inside an extractor is the extractor's own error return (the "
                   "Extract table). standalone.Run is not exercised.",
     "design_ref": "DESIGN.md section 5 C09",
 }
@@ -47,6 +50,8 @@ DEFS = [
     ("pathsdom_idx", "bad_indices (fun w => negb (c09_paths_domain w)) {c} 0"),
     ("multi_bad", "bad_indices case_spec_ok_C09_multi {c} 0"),
     ("multidom_idx", "bad_indices (fun w => negb (c09_multi_domain w)) {c} 0"),
+    ("size_bad", "bad_indices case_spec_ok_C09_size {c} 0"),
+    ("sizedom_idx", "bad_indices (fun w => negb (c09_size_domain w)) {c} 0"),
 ]
 
 
@@ -78,9 +83,10 @@ def run(ctx):
         return
     ctx.log("harness ran %d cases" % len(cases))
     res, nshards = wc.shard_eval(ctx, "C09", vfile, DEFS)
-    corr_bad, spec_bad = res["corr_bad"], sorted(set(res["spec_bad"] + res["paths_bad"] + res["multi_bad"]))
+    corr_bad, spec_bad = res["corr_bad"], sorted(set(res["spec_bad"] + res["paths_bad"] + res["multi_bad"] + res["size_bad"]))
     in_pathsdom = set(res["pathsdom_idx"])
     in_dom, in_base, fails = set(res["dom_idx"]), set(res["base_idx"]), set(res["fail_idx"])
+    ctx.log("size-limit clause: in_domain=%d bad=%d" % (len(res["sizedom_idx"]), len(res["size_bad"])))
     ctx.log("corr_bad=%d spec_bad=%d in_D=%d statement_domain=%d failing_outside_D=%d shards=%d" %
             (len(corr_bad), len(spec_bad), len(in_dom), len(in_base), len(fails - in_dom), nshards))
 
